@@ -866,6 +866,8 @@ class Gen:
 
 # ------------------------------------------------------------------ case generation
 def gen_init(rng, mix, tok):
+    # C05: the "input text" half of the statement -- some initial texts carry invalid / over-long leaves
+    inv = 0.15 if (mix == 'c05' and rng.random() < 0.4) else 0.0
     version = rng.choice(T.VERSIONS)
     level = rng.choice([1, 2])
     r = rng.random()
@@ -882,14 +884,15 @@ def gen_init(rng, mix, tok):
         if rng.random() < 0.08 and level == 2:
             init['name'] = 'ZZ1'
         elif rng.random() < 0.5:
-            init['text'] = gen.segment_text(rng, version, name, corpus._ec(0), tok, fill=rng.choice([0.15, 0.4]))
+            init['text'] = gen.segment_text(rng, version, name, corpus._ec(0), tok, fill=rng.choice([0.15, 0.4]), invalid_p=inv)
         return init
     if kind == 'msg':
         pool = [s for s in MSG_POOL if s in T.messages(version)]
         name = rng.choice(pool) if rng.random() < 0.8 else gen.pick_structure(rng, version)
         init = {'kind': 'msg', 'name': name, 'version': version, 'level': level, 'ec': eci}
         if rng.random() < 0.4:
-            init['text'] = gen.message_text(rng, version, name, corpus._ec(eci), tok, opt_p=0.15, rep_p=0.3, fill=0.15)
+            init['text'] = gen.message_text(rng, version, name, corpus._ec(eci), tok, opt_p=0.15, rep_p=0.3, fill=0.15,
+                                            invalid_p=inv)
         return init
     # field root
     pool = [s for s in SEG_POOL if _usable_fields(version, s)]
@@ -900,7 +903,7 @@ def gen_init(rng, mix, tok):
     i, c = rng.choice(fl)
     init = {'kind': 'fld', 'name': '%s_%d' % (seg, i), 'version': version, 'level': level}
     if rng.random() < 0.5:
-        init['text'] = gen.field_text(rng, version, c[1], corpus._ec(0), tok, 0.5)
+        init['text'] = gen.field_text(rng, version, c[1], corpus._ec(0), tok, 0.5, inv)
     return init
 
 
